@@ -422,6 +422,9 @@ func (t *streamableHTTPClientTransport) handleSSEResponse(
 	reqID interface{},
 	options *streamOptions,
 ) (*json.RawMessage, error) {
+	// The SSE response is consumed here: release the connection on every exit.
+	defer httpResp.Body.Close()
+
 	reader := bufio.NewReader(httpResp.Body)
 	var rawResult *json.RawMessage
 	var resultReceived bool
